@@ -1,9 +1,43 @@
 CFG = dict(
     id="C11", props="Props/C11.v", harness="c11", shims=["data--c11.go"],
     trusted_base=[
-        "Go's allocator returns a slice of capacity >= the requested length (the observed cap(buf) is fed to the model as the oracle; the model uses max(request, oracle))",
+        "Go's allocator returns a slice of capacity >= the requested length (make / append in trySlice); the observed cap(buf) is fed to the "
+        "model as the oracle and the model allocates max(request, oracle), so the theorems hold for EVERY capacity >= the request",
+        "Go's growslice/make zero the new backing array (the model fills a new array with zeros; compared byte for byte through Payload)",
+        "the harness' io.Writer (byte budget, then an error) and io.Reader (scripted chunks with errors) stand for arbitrary writers/readers; "
+        "a reader that returns more than the 16 KiB it was offered is excluded (op_ok)",
+        "the shim harness/overlay/data--c11.go (cap(buf), buf == nil, rpos getters; added with go build -overlay, not in /repo)",
+        "Coq kernel + vm_compute; the Go harness and its oracle (a plain byte queue written independently of the model)",
     ],
-    assumptions=[],
-    level_text="bootstrap",
-    level_note="bootstrap",
+    assumptions=[
+        "op_ok: byte slices hold bytes (0..255), typed widths are 1/2/4/8, the index of a positional write is >= 0 "
+        "(WriteUint8Pos(-1, x) panics in Go like any negative index: caller error, excluded), Read is given a slice (length >= 0), "
+        "an io.Reader returns at most len(p) <= 16384 bytes",
+        "inv: 0 <= rpos <= len(buf) <= cap(buf), a nil buffer has no backing array, the backing array holds bytes "
+        "(holds for Chunk{}, Chunk{Limit: n} and NewChunk(b); preserved by every operation: C11_inv_preserved)",
+        "limit_invariant starts from a chunk within its Limit (lim_ok: true for a fresh Chunk{Limit: n}; NewChunk(b) with a later, smaller "
+        "Limit is outside it until drained)",
+        "ints are mathematical integers: no int overflow below 2^62 bytes of buffer (max-m-n and MaxSlice = 2^42 checks are modelled; "
+        "Seek's int64 wrap is modelled)",
+    ],
+    level_text="Fourteen statements, closed under the global context, about the SAME Gallina functions (Model.Chunk.step/run) the correspondence run "
+               "evaluates: for ALL states satisfying the representation invariant, ALL operations (Write, WriteUint8..64 and wrappers, WriteBytes/"
+               "WriteString, Write*Pos, Read, Uint8..64 and wrappers, Bytes/StringVal, Seek, Truncate, Grow, Reset, Clear, WriteTo, ReadFrom) with "
+               "well-formed arguments and ALL allocator capacities >= the request: every step returns (no panic, loop fuel never exhausted), "
+               "preserves the invariant and the Limit bound, and is a step of a plain byte queue (qstep: reads return exactly the front of the "
+               "queue and remove it, typed reads are the codec's flat reader rd_uN/rd_bytes on the queue, writes append exactly the accepted "
+               "prefix, typed writes append the whole encoding or nothing, Seek/Truncate/Reset/Clear/Grow act as specified); by induction over "
+               "the operation list: every history is a history of the queue, (queue ++ accepted) = (taken ++ queue'), from an empty chunk the "
+               "bytes read are a prefix of the bytes accepted, the buffer never exceeds its Limit after any step, Write reports exactly the "
+               "count appended and is short only with the limit error (too-large needs capacity > 2^42). Two refutation lemmas against copies "
+               "of the pre-fix definitions (WriteBytes stray byte, slide over the Limit). The model is tied to /repo by ~1500 operation "
+               "sequences (up to 60 ops; after EVERY op: return value, Size, Remaining, Space, Empty, cap, nil-ness, Payload compared) plus a "
+               "Go-side byte-queue oracle.",
+    level_note="Proof is about the hand-written model; the tie to the code is differential (strength = generator: weighted op grammar over 11 limits, "
+               "boundary grid of write sizes incl. 16383/16384/16385, regression corpus). Not modelled: ReadDeadline (same loop as ReadFrom plus "
+               "deadlines), MarshalStream/UnmarshalStream, String, the heap variant chunk_heap.go, concurrent use (Chunk is not goroutine-safe). "
+               "Recorded behaviours that are conservative, not violations: typed writes never fill the last byte (Available is strict); the Limit "
+               "bounds Size (read + unread), so a fully read but not yet reset chunk refuses typed writes; a limited Write that would need a "
+               "reallocation refuses everything; Read on a never-written chunk returns (0, nil) instead of EOF; Write of an empty slice on a full "
+               "limited chunk returns (0, ErrLimit).",
 )
